@@ -9,7 +9,11 @@ from .markers import E, Timeout, enc_env, enc_marker, ev, is_nf, timed, variable
 
 from packaging.markers import Marker as PkgMarker  # noqa: E402
 
-THEOREMS_BY_PROP = {"C02": [], "C03": [], "C07": [], "C12": [], "C15": []}
+THEOREMS_BY_PROP = {
+    "C02": ["DepLogic.C02.and_sound", "DepLogic.C02.or_sound", "DepLogic.C02.isEmpty_sound", "DepLogic.C02.isAny_sound",
+            "DepLogic.C02.rewriting_sound", "DepLogic.M.sound_all", "DepLogic.M.singleSound", "DepLogic.M.mergeSingle_ok",
+            "DepLogic.M.str_coherent"],
+    "C03": [], "C07": [], "C12": [], "C15": []}
 THEOREMS: list[str] = []
 
 
